@@ -1442,6 +1442,12 @@ func (f *Frame) varAtEnd(b, header *ssa.BasicBlock, name string, pos token.Pos, 
 	}
 	for blk := b; blk != nil && blk != header.Idom(); blk = blk.Idom() {
 		for i := len(blk.Instrs) - 1; i >= 0; i-- {
+			if d, isRef := blk.Instrs[i].(*ssa.DebugRef); isRef && !d.IsAddr {
+				// an assignment of a constant (`match := false`) is only visible as the debug reference
+				if c, isConst := d.X.(*ssa.Const); isConst && d.Object() != nil && (d.Object() == obj || (obj == nil && d.Object().Name() == name)) {
+					return f.val(c, c.Type()), true
+				}
+			}
 			v, ok := blk.Instrs[i].(ssa.Value)
 			if !ok {
 				continue
